@@ -64,6 +64,16 @@ Check (C11_eq_sym : forall g a b, wfb g = true -> ord_onlyb g = true -> eq_alg g
 Check (C11_eq_trans : forall g a b c, wfb g = true -> ord_onlyb g = true ->
   eq_alg g a b = Some true -> eq_alg g b c = Some true -> eq_alg g a c = Some true).
 
+Check (C11_union_spec : forall k l r,
+  mlookup k (munion l r) = match mlookup k l with Some v => Some v | None => mlookup k r end).
+Check (C11_union_keeps_keys_distinct : forall l r,
+  NoDup (map fst l) -> NoDup (map fst r) -> NoDup (map fst (munion l r))).
+Check (C11_set_ops_spec : forall l r x,
+  (In x (sunion l r) <-> In x l \/ In x r) /\
+  (In x (sinter l r) <-> In x l /\ In x r) /\
+  (In x (ssymdiff l r) <-> (In x l /\ ~ In x r) \/ (In x r /\ ~ In x l)) /\
+  (ssubset l r = true <-> incl l r)).
+
 Print Assumptions C11_eq_refuted.
 Print Assumptions C11_eq_refuted_incomplete.
 Print Assumptions C11_set_eq_refuted.
@@ -84,3 +94,6 @@ Print Assumptions C11_list_ops.
 Print Assumptions C11_take_drop.
 Print Assumptions C11_eq_sym.
 Print Assumptions C11_eq_trans.
+Print Assumptions C11_union_spec.
+Print Assumptions C11_union_keeps_keys_distinct.
+Print Assumptions C11_set_ops_spec.
